@@ -213,6 +213,34 @@ std::string handle(const std::string& op, Args& a)
 			o << enhex(slurp(p));
 		});
 	}
+	if(op == "c20.rtfuncL" || op == "c20.rtfuncG")
+	{
+		std::string h = unhex(a.tok());
+		auto us		  = a.dbls();
+		double lo = a.dbl(), hi = a.dbl();
+		unsigned n = a.u64();
+		auto cf	   = a.dbls();
+		a.end();
+		bool logarithmic				= op == "c20.rtfuncG";
+		std::function<double(double)> f = [cf](double x) {
+			double acc = 0.0;
+			for(size_t i = cf.size(); i-- > 0;)
+				acc = cf[i] + x * acc;
+			return acc;
+		};
+		std::string p = new_path();
+		Cleanup c{p};
+		std::string r1 = run_forked([&](Out& o) {
+			Export_Function(p, f, lo, hi, n, us, logarithmic, h);
+			o << enhex(slurp(p)) << Count_Lines(p);
+		});
+		if(r1.compare(0, 2, "ok") != 0)
+			return r1;
+		std::string r2 = run_forked([&](Out& o) { put_table(o, Import_Table(p, us, header_lines(h))); });
+		if(r2.compare(0, 2, "ok") == 0)
+			return r1 + r2.substr(2);
+		return r1 + " import:" + r2;
+	}
 	if(op == "c20.implist")
 	{
 		std::string b = unhex(a.tok());
